@@ -3,7 +3,10 @@ use crossbeam::channel::{Receiver, Sender};
 use log::debug;
 
 use std::collections::HashMap;
+#[cfg(not(similari_verif))]
 use std::sync::{Arc, Mutex};
+#[cfg(similari_verif)]
+use similari_verif_rt::sync::{Arc, Mutex};
 
 pub type BatchRecords<T> = HashMap<u64, Vec<T>>;
 pub type SceneTracks = (u64, Vec<SortTrack>);
